@@ -22,7 +22,10 @@ def add(pid, cat, tech, text, note, ref):
 add("C01", "exploration", E1 + " (obs-level identity of written vs read records, 4-7 channels)",
     "No record sequence of the enumerated S1..S5 space (every serialisable type x value alphabet, all lists <=2, pair products, "
     "metadata products, all shape sequences <=3 (4 thorough), wrapped atoms) is read back different in count, order, descriptor or "
-    "any slot, judged on a deep observation that includes class, flavour, family, bit pattern and UTC offset.",
+    "any slot, judged on a deep observation that includes class, flavour, family, bit pattern and UTC offset. S6 adds long histories as "
+    "generator literals (periodic patterns to 1030/4100 records, 260..4200 record types, one hot type between hundreds of incidental ones, an "
+    "LRU sweep, a first record of 4 KiB..3 MiB, frames ending exactly around 4/8/64/128 KiB, 65 545 odd-length frames), S7 one instant in ten "
+    "spellings; channels incl. a None-returning sink and two zstd files open at once.",
     "Values outside the alphabets; CPython 3.12 + msgpack in /venv; mc.obs as the notion of identity.", "DESIGN.md C01")
 
 add("C02", "exploration", E1 + " (independent codec mc.refcodec in both directions, 8 wire variants, frozen golden corpus)",
@@ -36,7 +39,8 @@ add("C03", "model_checking", E2 + " to a fixpoint of the descriptor-registry mac
     "All reachable registry states of 1..2 (3 thorough) simultaneously open writers over a kind set with same-name, "
     "identifier-coinciding, nested-only and grouped-only types are visited to a fixpoint; on every transition the appended frames are "
     "decoded by the reference decoder and by the real reader and must carry the descriptor the record was created with; other "
-    "writers' bytes must be untouched.",
+    "writers' bytes must be untouched. A further leg runs the long histories of mc.streamspace (hot type, LRU sweep, many types, periodic, "
+    "big first record) through one writer of each packer.",
     "Canonical state = writer registries + reference-reader registry (argument in DESIGN C03); kinds are a fixed finite set.", "DESIGN.md C03")
 add("C04", "fault_enumeration", E3 + " (cuts of raw and gzip images judged against reference frame boundaries / zlib-available plaintext)",
     "For 5 streams (raw and gzip) every byte cut x 3 read paths, and every failing or short write-call index x accepted-byte count "
